@@ -13,10 +13,13 @@ Next ==
            f == IF r.ev = "tile"
                 THEN TileFails(r.q, [tf |-> r.q.src.tf, tc |-> r.q.src.tc, tiles |-> TileSetOf(r.q)], r.q.flags, r.resp)
                 ELSE IF r.ev = "tilesjson" THEN TilesJsonFails(r)
+                ELSE IF r.ev = "api" THEN ApiFails(r)
                 ELSE StaticFails(r.q, r.resp)
        IN IF f = {} THEN TRUE
           ELSE PrintT(<<"FAIL", l, ToJson([clauses |-> SetToSeq(f), target |-> r.target, resp |-> r.resp,
-                    q |-> (IF r.ev = "tilesjson" THEN [src |-> r.q.src, flags |-> r.q.flags, z |-> [txt |-> "tiles.json"], x |-> [txt |-> ""], y |-> [txt |-> ""], header |-> ""]
+                    q |-> (IF r.ev = "api" THEN [src |-> r.q.src, flags |-> r.q.flags, z |-> [txt |-> "api"], x |-> [txt |-> ""], y |-> [txt |-> ""], header |-> "",
+                                                     ids |-> r.ids, index |-> r.index, status |-> r.status, unknown |-> r.unknown]
+                           ELSE IF r.ev = "tilesjson" THEN [src |-> r.q.src, flags |-> r.q.flags, z |-> [txt |-> "tiles.json"], x |-> [txt |-> ""], y |-> [txt |-> ""], header |-> ""]
                            ELSE IF r.ev = "tile" THEN [src |-> r.q.src, flags |-> r.q.flags, z |-> r.q.z, x |-> r.q.x, y |-> r.q.y, header |-> r.q.header]
                            ELSE [src |-> [id |-> r.q.mount], segs |-> r.q.segs])])>>)
 Spec == Init /\ [][Next]_vars
